@@ -32,6 +32,8 @@ type vmScenario struct {
 	EmptyAt []int    `json:"empty_at,omitempty"`
 	Empties []string `json:"empties,omitempty"`
 	Files   map[string]string `json:"files,omitempty"` // simulated disk for (source ...)
+	// the host calls script functions directly through the public Apply API between evaluations (idle interpreter)
+	HostApply bool `json:"host_apply,omitempty"`
 	// C01 uses this engine for its panic oracle only
 	PanicsOnly bool `json:"panics_only,omitempty"`
 }
@@ -96,6 +98,20 @@ func installHost(env *zygo.Zlisp, h *host) {
 		}
 		// a builder receives its arguments unevaluated and calls back into the VM
 		return zygo.EvalFunction(e, "hb-eval", []zygo.Sexp{args[1]})
+	})
+	// a host function that calls a script function back through the public Apply API
+	env.AddFunction("hc", func(e *zygo.Zlisp, name string, args []zygo.Sexp) (zygo.Sexp, error) {
+		if len(args) != 2 {
+			return zygo.SexpNull, zygo.WrongNargs
+		}
+		if err := h.enter("hc"); err != nil {
+			return zygo.SexpNull, err
+		}
+		fn, isFn := args[0].(*zygo.SexpFunction)
+		if !isFn {
+			return zygo.SexpNull, fmt.Errorf("hc needs a function")
+		}
+		return e.Apply(fn, []zygo.Sexp{args[1]})
 	})
 	env.AddMacro("hm", func(e *zygo.Zlisp, name string, args []zygo.Sexp) (zygo.Sexp, error) {
 		if len(args) != 1 {
@@ -750,6 +766,41 @@ func execGrowth(sc *vmScenario, res *kernel.Result) {
 				return
 			}
 		}
+		if sc.HostApply {
+			// between evaluations the host calls every script function it can find through env.Apply
+			for _, fname := range []string{"f0", "f1", "f2"} {
+				v, ok := env.VerifGlobal(fname)
+				fn, isFn := v.(*zygo.SexpFunction)
+				if !ok || !isFn {
+					continue
+				}
+				for nargs := 1; nargs <= 2; nargs++ {
+					args := []zygo.Sexp{&zygo.SexpInt{Val: 1}, &zygo.SexpInt{Val: 2}}[:nargs]
+					res.Execs++
+					kernel.SetBudget(sc.Budget)
+					o := zy.Guard(func() (zygo.Sexp, error) { return env.Apply(fn, args) })
+					kernel.SetBudget(-1)
+					if o.Budget {
+						res.Unbounded++
+						return
+					}
+					if o.Panicked {
+						fail("P-panic", o.Site, "env.Apply(%s, %d args) panicked: %s", fname, nargs, o.PanicMsg)
+						return
+					}
+					res.Probe("host-apply")
+					if !o.OK() {
+						env.Clear()
+					}
+				}
+			}
+			// the interpreter must still evaluate normally afterwards
+			o := zy.Eval(env, "(+ 40 2) ", sc.Budget)
+			if iv, isInt := o.Val.(*zygo.SexpInt); !o.OK() || !isInt || iv.Val != 42 {
+				fail("S-rest", "after-host-apply", "after the host called script functions through env.Apply, (+ 40 2) evaluates to %s", o)
+				return
+			}
+		}
 		dv, _ := depthsOf(env)
 		if r == 0 {
 			first = dv
@@ -800,6 +851,7 @@ func genVMGrowth(r *kernel.RNG, tier string, i int) interface{} {
 	sc := &vmScenario{Prop: "C04", Mode: "growth", Env: r.Pick([]string{"std", "std", "dup"})}
 	sc.Budget = 200000
 	sc.Forms, sc.Files = genProgramFiles(r, r.Range(1, 5), r.Chance(0.7), true)
+	sc.HostApply = r.Chance(0.3)
 	sc.Repeat = r.Range(2, 60)
 	if r.Chance(0.6) {
 		sc.Repeat = r.Range(2, 6)
